@@ -447,8 +447,9 @@ class EvalMixin(object):
             if len(t[1]) > 0:
                 return True
         if k == "cmp" and t[2][0] == "call" and t[2][1] == "len" and \
-                is_const(t[3]) and ("len", t[2][2][0]) in state.facts:
-            n = state.facts[("len", t[2][2][0])]
+                is_const(t[3]) and t[2][2] and \
+                ("len", self._unwrap_rows(t[2][2][0])) in state.facts:
+            n = state.facts[("len", self._unwrap_rows(t[2][2][0]))]
             c = t[3][1]
             try:
                 return {">": n > c, ">=": n >= c, "<": n < c, "<=": n <= c,
@@ -479,6 +480,11 @@ class EvalMixin(object):
         if ("isnone", t) in state.facts and state.facts[("isnone", t)]:
             return False
         return None
+
+    def _unwrap_rows(self, x):
+        while x[0] == "call" and x[1] in ("list", "sorted", "tuple") and x[2]:
+            x = x[2][0]
+        return x
 
     def maybe_none(self, obj):
         tag = obj[2]
